@@ -287,6 +287,34 @@ func checkC02(c *Ctx) Meta {
 	checkRemarkCleared(c, "C02-PAIR")
 	c.Rule("C02-PUBLIVE", "the public hierarchy stays usable for the life of the keystore object: the fields the loader fills once and nothing re-derives (cryptoKeyPub, masterKeyPub, the account and branch public keys) are never zeroed — every address persisted afterwards would be sealed under an all-zero key and the store could not be reopened", 1)
 	c02PubLive(c)
+	// …and every later reload uses the current value: an operation that loads a keystore back after writing
+	// it hands loadAddrManager the manager's pubPassphrase field as it is at that moment, not a copy some
+	// other object took when it was built (a copy goes stale with the next ChangePubPassphrase: the keystore
+	// is committed, the reload fails, and the store holds a keystore the running instance does not show)
+	for _, name := range []string{"NewKeystore", "ImportKeystore"} {
+		f := c.MustFn("C02-PAIR", "poc/wallet/keystore", "(*KeystoreManagerForPoC)."+name)
+		if f == nil {
+			continue
+		}
+		key := name + ":reloads-with-the-current-public-passphrase"
+		n, bad := 0, ""
+		for _, g := range bodyFns(f, exceptExported) {
+			for _, cl := range callsInShallow(g, pkgKeystore+".loadAddrManager") {
+				n++
+				if !backSlice(cl.Call.Args[1]).hasField(tKMC, "pubPassphrase") {
+					bad = c.Pos(cl.Pos())
+				}
+			}
+		}
+		switch {
+		case n == 0:
+			c.Bad("C02-PAIR", key, c.Pos(f.Pos()), "reason=anchor-missing: loadAddrManager call after the write")
+		case bad != "":
+			c.Bad("C02-PAIR", key, bad, "the keystore just written is loaded back with a public passphrase that is not read from the manager's pubPassphrase field (a copy taken earlier): after ChangePubPassphrase the copy is stale, the write is committed but the reload fails — the store holds a keystore the running instance does not show")
+		default:
+			c.OK("C02-PAIR", key, c.Pos(f.Pos()), "loadAddrManager(…, kmc.pubPassphrase, …)")
+		}
+	}
 	// the memory side gets the NEW value
 	if f := c.MustFn("C02-PAIR", "poc/wallet/keystore", "(*KeystoreManagerForPoC).ChangePubPassphrase"); f != nil {
 		key := "ChangePubPassphrase:memory-gets-the-new-passphrase"
